@@ -111,11 +111,31 @@ class NumpyBackendProvider(BackendProvider):
         param_names = list(self._collect_params(ir))
         fn_source = f"def _expr({', '.join(param_names)}): return {source}"
         ns = {'np': np}
+        ns.update(self._compiled_helpers())
         try:
             exec(fn_source, ns)
         except Exception:
             return None
         return (ns['_expr'], var_syms)
+
+    def _compiled_helpers(self):
+        """Helpers for compiled code where a bare Python/numpy operator would not follow the verb:
+        Divide and Power go through the verb implementations (zero divisor, integral results);
+        reduce/scan shortcuts only apply to non-empty arrays and otherwise raise so that the
+        caller falls back to the interpreter."""
+        from ..dyads import eval_dyad_divide, eval_dyad_power
+
+        def _vec(x):
+            if not isinstance(x, np.ndarray) or x.ndim == 0 or x.size == 0:
+                raise TypeError("compiled reduce/scan needs a non-empty array")
+            return x
+
+        return {
+            '_div': lambda a, b: eval_dyad_divide(a, b, self),
+            '_pow': lambda a, b: eval_dyad_power(a, b, self),
+            '_red': lambda u, x: u.reduce(_vec(x)),
+            '_acc': lambda u, x: u.accumulate(_vec(x)),
+        }
 
     def _ir_to_source(self, ir):
         """Convert IR tree to Python source string with numpy operations."""
@@ -133,7 +153,11 @@ class NumpyBackendProvider(BackendProvider):
             r = self._ir_to_source(right)
             if l is None or r is None:
                 return None
-            py_op = {'+': '+', '-': '-', '*': '*', '%': '/', '^': '**'}.get(op)
+            if op == '%':
+                return f'_div({l},{r})'
+            if op == '^':
+                return f'_pow({l},{r})'
+            py_op = {'+': '+', '-': '-', '*': '*'}.get(op)
             if py_op is None:
                 return None
             return f'({l}{py_op}{r})'
@@ -160,20 +184,20 @@ class NumpyBackendProvider(BackendProvider):
             arg_src = self._ir_to_source(arg)
             if arg_src is None:
                 return None
-            method = {'+': 'np.add.reduce', '*': 'np.multiply.reduce', '|': 'np.maximum.reduce', '&': 'np.minimum.reduce'}.get(op)
+            method = {'+': 'np.add', '*': 'np.multiply', '|': 'np.maximum', '&': 'np.minimum'}.get(op)
             if method is None:
                 return None
-            return f'{method}({arg_src})'
+            return f'_red({method},{arg_src})'
 
         if node_type == 'scan':
             op, arg = ir[1], ir[2]
             arg_src = self._ir_to_source(arg)
             if arg_src is None:
                 return None
-            method = {'+': 'np.cumsum', '*': 'np.cumprod'}.get(op)
+            method = {'+': 'np.add', '*': 'np.multiply'}.get(op)
             if method is None:
                 return None  # |\ and &\ not supported in numpy
-            return f'{method}({arg_src})'
+            return f'_acc({method},{arg_src})'
 
         return None
 
